@@ -55,6 +55,10 @@ CLAIMED = {
             "differential against stepwise navigation: every option/section instance of generated trees x every qualifier form of every step and systematically broken variants; pointer identity, setter/size/rmsec effects, unchanged dump",
             "The tree is enumerated from the reference model; grey zone as stated in the evidence.",
             "property-based testing (Hypothesis trees) + systematic path-form enumeration, differential oracle against single-level accessors"),
+    "C13": ("exploration", "5.C13",
+            "differential: accepted texts split at item boundaries into random include trees (depth 1..12, cwd / absolute / search path) vs the flat text; error position after an include; failure histories followed by a succeeding include; resource and include-depth balance",
+            "Split points come from the reference model; unreadable files cannot be produced as root.",
+            "metamorphic/differential property-based testing (Hypothesis split trees, failure histories)"),
 }
 PENDING = {}
 props = [json.loads(l) for l in open(os.path.join(V, "properties.jsonl"))]
